@@ -291,6 +291,8 @@ pub struct DirListing {
     pub end_at: Option<u32>,
     pub total_slots: u32,
     pub nonzero_after_end: Option<(u32, u32)>,
+    /// raw non-zero slots behind the end marker (at most 64)
+    pub after_end: Vec<[u8; 32]>,
     pub chain: Vec<u32>,
     pub chain_end: ChainEnd,
     pub blocks: Vec<u32>,
@@ -343,6 +345,7 @@ pub fn list_dir(img: &dyn Img, fv: &FatView, loc: DirLoc) -> DirListing {
     let mut slots: Vec<DSlot> = Vec::new();
     let mut end_at = None;
     let mut nonzero_after_end = None;
+    let mut after_end: Vec<[u8; 32]> = Vec::new();
     let mut idx = 0u32;
     // pending LFN run: (ordinal expected next, csum, fragments in disk order)
     let mut run: Option<(u8, u8, Vec<[u16; 13]>)> = None;
@@ -351,8 +354,13 @@ pub fn list_dir(img: &dyn Img, fv: &FatView, loc: DirLoc) -> DirListing {
         for i in 0..16 {
             let raw: [u8; 32] = b[i * 32..i * 32 + 32].try_into().unwrap();
             if end_at.is_some() {
-                if raw.iter().any(|x| *x != 0) && nonzero_after_end.is_none() {
-                    nonzero_after_end = Some((*blk, i as u32 * 32));
+                if raw.iter().any(|x| *x != 0) {
+                    if nonzero_after_end.is_none() {
+                        nonzero_after_end = Some((*blk, i as u32 * 32));
+                    }
+                    if after_end.len() < 64 {
+                        after_end.push(raw);
+                    }
                 }
                 idx += 1;
                 continue;
@@ -427,6 +435,7 @@ pub fn list_dir(img: &dyn Img, fv: &FatView, loc: DirLoc) -> DirListing {
         end_at,
         total_slots: idx,
         nonzero_after_end,
+        after_end,
         chain: ch,
         chain_end: end,
         blocks,
